@@ -3,7 +3,7 @@
    zoom part, so header, chromosome table, data region and main index are the same (bw_same_regions)
    and the round trip holds for both.  The only thing the zoom part must guarantee is that at most
    MAX_ZOOM_LEVELS (10) levels are written, so that the zoom directory stays inside the space
-   write_blank_headers reserved; both writers guarantee it since /repo adc453b (before that repair
+   write_blank_headers reserved; both writers guarantee it since /repo 3a3ac98 (before that repair
    an 11th level made write_info's directory run into the summary slot). *)
 From BT Require Import Base.Util Base.LE Base.Float Generated.Consts Model.RTree Model.BBIFile
   Model.BigWigWrite Model.BBIRead Proofs.Chunks Proofs.BigWigQuery Proofs.RTreeCodec Proofs.FileRegions
@@ -62,7 +62,7 @@ Proof. induction l as [|x l IH]; cbn [filter length]; [lia|]. destruct (f x); cb
 Lemma take_while_length {X} (f : X -> bool) l : (length (take_while f l) <= length l)%nat.
 Proof. induction l as [|x l IH]; cbn [take_while length]; [lia|]. destruct (f x); cbn [length]; lia. Qed.
 
-(* since /repo adc453b both writers keep at most MAX_ZOOM_LEVELS (10) resolutions, whatever the options *)
+(* since /repo 3a3ac98 both writers keep at most MAX_ZOOM_LEVELS (10) resolutions, whatever the options *)
 Lemma zoom_sizes_single_len o : (length (zoom_sizes_single o) <= 10)%nat.
 Proof. unfold zoom_sizes_single. cbv zeta. rewrite firstn_length. change (N.to_nat MAX_ZOOM_LEVELS) with 10%nat. lia. Qed.
 Lemma zoom_sizes_two_pass_len o sum counts ds : (length (zoom_sizes_two_pass o sum counts ds) <= 10)%nat.
